@@ -51,7 +51,7 @@ pub fn parse_text(text: &str, toks: Option<&[Tok]>) -> Parsed {
 pub fn fully_parenthesised(s: &Sx) -> Option<String> {
     match s {
         Sx::Leaf(_, t) => Some(t.clone()),
-        Sx::Broken(_) => None,
+        Sx::Broken(_) | Sx::ValNode(..) => None,
         Sx::Node(d, l, r) => {
             let wrap = |x: &Sx| -> Option<String> {
                 match x {
